@@ -12,7 +12,7 @@ from xt import PNode
 
 THEOREMS = ["XmlDiffModel.C11_table_injective", "XmlDiffModel.C11_table_stable", "XmlDiffModel.C11_fresh_placeholder",
             "XmlDiffModel.C11_roundtrip_element", "XmlDiffModel.C11_roundtrip_element_fresh_maker",
-            "XmlDiffModel.C11_roundtrip_tree", "XmlDiffModel.C11_do_tree_keeps_invariants", "XmlDiffModel.C11_roundtrip_tree_fresh_maker"]
+            "XmlDiffModel.C11_roundtrip_tree", "XmlDiffModel.C11_do_tree_keeps_invariants", "XmlDiffModel.C11_roundtrip_tree_fresh_maker", "XmlDiffModel.C11_prepare_then_finalize"]
 PARTIAL = {
     "C11_nested_text_tags": "proved: the round trip of a whole document - undo_element on the root of what do_tree returned (what undo_tree "
     "calls) has the normal form of the document (restored inline elements are copies, an empty text or tail is not told from a missing "
